@@ -473,7 +473,12 @@ impl IntrinsicOp {
             | RightShiftAssignment | BitwiseAndAssignment | BitwiseOrAssignment
             | BitwiseXorAssignment => {
                 assert_eq!(param_types.len(), 2);
-                assert_eq!(param_types[0].0, param_types[1].0);
+                // The stored value has the unqualified type of the target
+                // (a literal converted for a volatile / unorm / row_major target carries no modifier)
+                assert_eq!(
+                    module.type_registry.remove_modifier(param_types[0].0),
+                    module.type_registry.remove_modifier(param_types[1].0)
+                );
                 assert_eq!(param_types[0].1, ValueType::Lvalue);
                 param_types[0]
             }
